@@ -118,7 +118,13 @@ def run(R, env):
     w0 = h.with_removed(rem).settle()
     R.ob("C06.R3", "SubmitBatch:no-deadline-no-success", n2 >= 1 and not [e for e in exits(w0) if e["kind"] != "err"], "with next_batch_action_time = None SubmitBatch has a success exit", fn=hk)
     # R4 emptiness
+    def pending_requests(x):
+        return any(s_[0] == "call" and s_[1].endswith("IndexedMap::prefix") and ns_of(prog, s_[2][0]) == "unstake_requests" and (pend_id(s_[2][1]) or (s_[2][1][0] == "field" and s_[2][1][2] == "id" and pend_batch(s_[2][1][1]))) for s_ in subterms(x))
+
     def empty_test(t):
+        # `range(..).next().is_none()` / `.is_some()` over the pending batch's requests
+        if t[0] == "call" and t[1] in ("std::option::Option::is_none", "std::option::Option::is_some") and t[2] and t[2][0][0] == "call" and t[2][0][1].endswith("Iterator::next") and pending_requests(t[2][0]):
+            return t[1].endswith("is_some")
         rel = cmp_rel(t, lambda x: x[0] == "call" and x[1].endswith("Iterator::count") and any(s_[0] == "call" and s_[1].endswith("IndexedMap::prefix") and ns_of(prog, s_[2][0]) == "unstake_requests" and pend_id(s_[2][1]) for s_ in subterms(x)), lambda y: const_int(y) == 0)
         if rel is None:
             return None
